@@ -33,6 +33,22 @@ THEOREMS = [
         # statements above hold for every label family and uuid setting
         "dispatch_geometric_iff", "dispatch_roiless", "withGeometry_eq_geometric", "geometric_independent_of_family_uuid",
         "x_results_est_perm", "x_results_gt_nodup", "x_pair_within_radius", "x_fpval_all_paired",
+        # totality / error characterisation (lean/PEval/Lemmas/MatchingTotal.lean): when the matcher returns, when it raises,
+        # which exception (IndexError of get_label_threshold, AssertionError of the IoU is_better_than), first failing cell
+        "total_of_wellformed", "wellformed_of_no_thresholds", "raises_iff", "returns_iff", "raises_first_failing_cell",
+        "cell_raises_iff", "error_kinds", "table_is_code_table_of_ok", "x_total_of_wellformed",
+        "x_tlr_total", "x_tlr_null_uuid_raises",
+        # "the caller's lists are left untouched": heap model of the list handling of get_object_results
+        # (lean/PEval/Model/MatchHeap.lean: the two .copy() calls, pops on the copies); the real-code observation is
+        # `untouched` / `frame_gt_untouched` of run_impl below; the variant without .copy() refutes caller_lists_untouched
+        "existing_lists_untouched", "caller_lists_untouched", "heap_results_are_input_objects",
+        "heap_result_objects_in_lists", "heap_results_est_perm",
+        # lists the dispatch does not look at (a later ROI-less object, 2-D objects with a 3-D-only mode): the constructor exits
+        # of the matching classes (MatchDispatch.getObjectResultsXE, the function the driver op matchx runs)
+        "xe_eq_x_of_readable", "xe_readable_of_geometry", "xe_constructor_raises_iff", "xe_cell_raises_iff",
+        "xe_geometric_raises_iff",
+        # labels as enum members: the one-family assumption of the value-level model made explicit
+        "family_isMatchable_eq", "family_cell_eq",
     ]
 ] + (
     # decision tables of the kernels C01 rests on, regenerated from the source on every run (harness/dt_match.py)
@@ -591,6 +607,10 @@ def run_impl(case: dict) -> dict:
         out["err"] = core.err_kind(ex)
         out["trace"] = traceback.format_exc()[-700:]
     out["untouched"] = _snapshot(ests) == snap_e and _snapshot(gts) == snap_g
+    # content of the caller's two lists after the call, as positions in the lists before the call (compared with the heap
+    # model MatchHeap.getObjectResultsH: lean/PEval/Model/MatchHeap.lean)
+    out["after_e"] = [ids_e.get(id(o), -1) for o in ests]
+    out["after_g"] = [ids_g.get(id(o), -1) for o in gts]
     out["in_e"] = [ids_e[id(o)] for o in in_e]
     out["in_g"] = [ids_g[id(o)] for o in in_g]
     if is_roiless(case):
@@ -657,8 +677,29 @@ def _to_ids(out: dict, results: list) -> list:
     return [[out["in_e"][i], None if j is None else out["in_g"][j]] for i, j in results]
 
 
+def _heap_mismatch(case: dict, out: dict, r: dict) -> Optional[str]:
+    """the heap model of the list handling (the two .copy() calls, pops on the copies) against the real lists after the call;
+    direct calls only (through the manager the matcher's inputs are the filter's new lists)"""
+    hp = r.get("heap")
+    if hp is None or case["kind"] == "manager" or "after_e" not in out:
+        return None
+    nE = len(out["in_e"])
+    m_e, m_g = hp["ests_after"], [g - nE for g in hp["gts_after"]]
+    if m_e != out["after_e"] or m_g != out["after_g"]:
+        return (f"caller's lists after the call differ: impl estimates {out['after_e']} ground truths {out['after_g']}, "
+                f"heap model estimates {m_e} ground truths {m_g}")
+    if hp.get("results") is not None and "results" in out:
+        m_r = [[e, None if g is None else g - nE] for e, g in hp["results"]]
+        if m_r != out["results"]:
+            return f"heap model results differ: impl {out['results']} heap model {m_r}"
+    return None
+
+
 def compare(case: dict, out: dict, resps: list) -> Optional[str]:
     r = resps[0]
+    hm = _heap_mismatch(case, out, r)
+    if hm is not None:
+        return hm
     if "err" in out or "err" in r:
         if out.get("err") == r.get("err"):
             return None
